@@ -208,6 +208,30 @@ func nativeEnv(extra ...string) []string {
 	return append(env, extra...)
 }
 
+// NativeEnv exposes the environment used for reference-toolchain commands.
+func NativeEnv(extra ...string) []string { return nativeEnv(extra...) }
+
+// RunCmd runs a command with a timeout and returns stdout, stderr and the exit code.
+func RunCmd(timeout time.Duration, env []string, dir, name string, args ...string) (string, string, int, bool) {
+	return runCmd(timeout, env, dir, name, args...)
+}
+
+var cliOnce sync.Once
+var cliPath string
+
+// CLI builds the gopherjs command line tool from the tree under test (once per process).
+func CLI() string {
+	cliOnce.Do(func() {
+		out := filepath.Join(Scratch(), "gopherjs-cli")
+		_, se, code, to := runCmd(20*time.Minute, nativeEnv(), RepoDir(), "go", "build", "-o", out, ".")
+		if to || code != 0 {
+			Infra("cannot build the gopherjs CLI from %s: %s", RepoDir(), se)
+		}
+		cliPath = out
+	})
+	return cliPath
+}
+
 // BuildNative builds the main package in dir with the reference toolchain.
 func BuildNative(dir string, tags []string) (bin string, err error) {
 	bin = filepath.Join(dir, "native.bin")
